@@ -193,9 +193,8 @@ func GOMAXPROCS(n int) int {
 
 // NumCPU replaces runtime.NumCPU (fixed in simulation).
 func NumCPU() int {
-	if cur == nil {
-		return runtime.NumCPU()
-	}
+	// fixed in every binary that links simrt: package-level initialisers
+	// (maxWorkers) run before any simulation exists
 	return 4
 }
 
